@@ -129,6 +129,7 @@ def build(repo):
                                        "self.functions_call_tree.insert(%(k)s.clone(), %(v)s); "
                                        "proof { assert(self.functions_call_tree@ =~= __t0.insert(*%(k)s, self.functions_call_tree@[*%(k)s])); } } else {") % {"v": v, "k": k, "body": body} + blk.text[cb + 1 + me.end():]
     blk.log.append("R16 get_mut/push -> contains_key/remove/push/insert")
+    blk.sub(r"Some\((\w+)\) => \1\.contains\((\w+)\)", r"Some(\1) => vec_contains_string(\1, \2)", "R15 contains on an entry obtained by get() (slice::contains has no specification)", expect=(0, 4))
     blk.sub(r"\bvar\.to_string\(\)", "string_of(var)", "R11 to_string", expect=(0, 4))
     blk.sub(r"\"ROM_SELECT\"\.into\(\)", '"ROM_SELECT".to_string()', "R3-into", expect=(0, 4))
     blk.sub(r"self\.bankswitching_scheme\.starts_with\(\"SuperGame\"\)", "starts_with_supergame(self.bankswitching_scheme)", "R15 starts_with", expect=(0, 4))
